@@ -146,35 +146,47 @@ class Stream(object):
         if response is None:
             response = Response()
 
-        header_lines = []
-        bytes_read = 0
-
         while True:
-            try:
-                data = yield from self._connection.readline()
-            except ValueError as error:
-                raise ProtocolError(
-                    'Invalid header: {0}'.format(error)) from error
+            header_lines = []
+            bytes_read = 0
 
-            self._data_event_dispatcher.notify_read(data)
+            while True:
+                try:
+                    data = yield from self._connection.readline()
+                except ValueError as error:
+                    raise ProtocolError(
+                        'Invalid header: {0}'.format(error)) from error
 
-            if not data.endswith(b'\n'):
-                raise NetworkError('Connection closed.')
-            elif data in (b'\r\n', b'\n'):
-                break
+                self._data_event_dispatcher.notify_read(data)
 
-            header_lines.append(data)
-            assert data.endswith(b'\n')
+                if not data.endswith(b'\n'):
+                    raise NetworkError('Connection closed.')
+                elif data in (b'\r\n', b'\n'):
+                    break
 
-            bytes_read += len(data)
+                header_lines.append(data)
+                assert data.endswith(b'\n')
 
-            if bytes_read > 32768:
-                raise ProtocolError('Header too big.')
+                bytes_read += len(data)
 
-        if not header_lines:
-            raise ProtocolError('No header received.')
+                if bytes_read > 32768:
+                    raise ProtocolError('Header too big.')
 
-        response.parse(b''.join(header_lines))
+            if not header_lines:
+                raise ProtocolError('No header received.')
+
+            response.parse(b''.join(header_lines))
+
+            if 100 <= response.status_code < 200 \
+                    and response.status_code != 101:
+                # Interim response (RFC 7230 section 6.2): the final
+                # response follows on the connection.
+                _logger.debug(__(
+                    'Skipping interim response {0}.', response.status_code))
+                response = Response()
+                continue
+
+            break
 
         return response
 
